@@ -1,6 +1,142 @@
-/- Driver/C05 — stub until the property's model driver is written. -/
+/-
+Driver/C05 — runs the executable models of the key index (Model/Lsm) and of the residency
+database (Model/Residency) on protocol lines.
+
+  begin idx cap_pages=<n> per_page=<n>      reset, index stream
+  add <key32hex> <id> <off> <size>  | rm <key> | upd <key> <id> <off> <size> | st <key> <status>
+  get <key> | has <key> | iter | count | flush <b> | flushall | save | clear <b> | reload
+  begin res per_page=<n> batch=<n>           reset, residency stream
+  mark <key32hex> | unmark <key> | span <key> <off> <len> | del <key>,<key>,… | delpad <n> <key>,…
+  isres <key> | scan | rcount | rsave | rload
+-/
 import Driver.Common
-open Drv
+import Cascette.Model.Lsm
+import Cascette.Model.Residency
+open Cascette Drv
+open Cascette.Spec.IndexMap (Entry Op Out bucketOf)
+open Cascette.Model
+
+structure St where
+  mode : Nat := 0            -- 0 none, 1 index, 2 residency
+  cfg : Lsm.Cfg := ⟨60, 21⟩
+  idx : Lsm.State := Lsm.State.init
+  rcfg : Residency.Cfg := ⟨25, 10000⟩
+  res : Residency.State := Residency.State.init
+
+/-- replace the closure chains by array-backed tables (extensionally equal on buckets < 16,
+the only ones `bucketOf` can produce); keeps every step O(1) in the history length. -/
+def normalize (s : Lsm.State) : Lsm.State :=
+  let m := ((List.range 16).map s.mem).toArray
+  let d := ((List.range 16).map s.disk).toArray
+  ⟨fun b => if h : b < m.size then m[b] else none, fun b => if h : b < d.size then d[b] else none⟩
+
+def natOfBytes (l : List Nat) : Nat := l.foldl (fun a b => a * 256 + b) 0
+
+/-- 16-byte key → its 9-byte truncation as a big-endian number. -/
+def key9? (s : String) : Option Nat :=
+  match parseHexNat s with
+  | some l => if l.length = 16 then some (natOfBytes (l.take 9)) else none
+  | none => none
+
+def key16? (s : String) : Option Nat :=
+  match parseHexNat s with
+  | some l => if l.length = 16 then some (natOfBytes l) else none
+  | none => none
+
+def kv? (pfx : String) (s : String) : Option Nat :=
+  if s.startsWith pfx then (s.drop pfx.length).toString.toNat? else none
+
+def showEntry (e : Entry) : String :=
+  s!"{hexFixed 18 e.key} {e.id} {e.off} {e.size}"
+
+def showOut : Out → String
+  | .ok => "ok"
+  | .err => "err"
+  | .bool b => if b then "true" else "false"
+  | .entry none => "none"
+  | .entry (some e) => showEntry e
+  | .entries l => s!"n={l.length}" ++ String.join (l.map fun (b, e) => s!" {b}:{hexFixed 18 e.key}:{e.id}:{e.off}:{e.size}")
+  | .num n => toString n
+
+def idxOp? : List String → Option Op
+  | ["add", k, id, off, size] =>
+    match key9? k, id.toNat?, off.toNat?, size.toNat? with
+    | some k, some id, some off, some size =>
+      if id < 2 ^ 16 ∧ off < 2 ^ 32 ∧ size < 2 ^ 32 then some (.add k id off size) else none
+    | _, _, _, _ => none
+  | ["upd", k, id, off, size] =>
+    match key9? k, id.toNat?, off.toNat?, size.toNat? with
+    | some k, some id, some off, some size =>
+      if id < 2 ^ 16 ∧ off < 2 ^ 32 ∧ size < 2 ^ 32 then some (.update k id off size) else none
+    | _, _, _, _ => none
+  | ["rm", k] => (key9? k).map .remove
+  | ["st", k, st] =>
+    match key9? k, st.toNat? with
+    | some k, some st => if st = 0 ∨ st = 3 ∨ st = 6 ∨ st = 7 then some (.status k st) else none
+    | _, _ => none
+  | ["get", k] => (key9? k).map .lookup
+  | ["has", k] => (key9? k).map .has
+  | ["iter"] => some .iter
+  | ["count"] => some .count
+  | ["flush", b] => b.toNat?.bind fun b => if b < 256 then some (.flush b) else none
+  | ["flushall"] => some .flushAll
+  | ["save"] => some .saveAll
+  | ["clear", b] => b.toNat?.bind fun b => if b < 256 then some (.clearBucket b) else none
+  | ["reload"] => some .reload
+  | _ => none
+
+def keys16? (s : String) : Option (List Nat) :=
+  if s == "-" then some [] else
+  (s.splitOn ",").foldr (fun x acc => match key16? x, acc with
+    | some k, some l => some (k :: l)
+    | _, _ => none) (some [])
+
+def resOp? : List String → Option Residency.Op
+  | ["mark", k] => (key16? k).map .mark
+  | ["unmark", k] => (key16? k).map .unmark
+  | ["span", k, _, _] => (key16? k).map .span
+  | ["del", ks] => (keys16? ks).map (.delete 0)
+  | ["delpad", n, ks] =>
+    match n.toNat?, keys16? ks with
+    | some n, some ks => some (.delete n ks)
+    | _, _ => none
+  | ["isres", k] => (key16? k).map .isResident
+  | ["scan"] => some .scan
+  | ["rcount"] => some .count
+  | ["rsave"] => some .save
+  | ["rload"] => some .load
+  | _ => none
+
+def showRes : Residency.Out → String
+  | .ok => "ok"
+  | .bool b => if b then "true" else "false"
+  | .keys l => s!"n={l.length}" ++ String.join (l.map fun k => " " ++ hexFixed 32 k)
+  | .num n => toString n
+
+def handle (s : St) (toks : List String) : St × String :=
+  match toks with
+  | ["begin", "idx", cp, pp] =>
+    match kv? "cap_pages=" cp, kv? "per_page=" pp with
+    | some cp, some pp => ({ s with mode := 1, cfg := ⟨cp, pp⟩, idx := Lsm.State.init }, "ok")
+    | _, _ => (s, "bad-op")
+  | ["begin", "res", pp, bt] =>
+    match kv? "per_page=" pp, kv? "batch=" bt with
+    | some pp, some bt => ({ s with mode := 2, rcfg := ⟨pp, bt⟩, res := Residency.State.init }, "ok")
+    | _, _ => (s, "bad-op")
+  | _ =>
+    if s.mode = 1 then
+      match idxOp? toks with
+      | some op =>
+        let (i, o) := Lsm.step s.cfg s.idx op
+        ({ s with idx := normalize i }, showOut o)
+      | none => (s, "bad-op")
+    else if s.mode = 2 then
+      match resOp? toks with
+      | some op =>
+        let (r, o) := Residency.step s.rcfg s.res op
+        ({ s with res := r }, showRes o)
+      | none => (s, "bad-op")
+    else (s, "bad-op")
 
 def main : IO Unit := do
-  loopPure (← IO.getStdin) (← IO.getStdout) (fun _ => "bad-op")
+  loopState (← IO.getStdin) (← IO.getStdout) handle {}
